@@ -29,3 +29,17 @@ impl MemStore {
         k
     }
 }
+
+pub struct OtherStore;
+
+#[entrait]
+#[mockall::automock]
+#[once::once]
+impl StoreImpl for OtherStore {
+    pub fn get<D>(deps: &D, k: u8) -> u8 {
+        k
+    }
+    pub fn put<D>(deps: &D, k: u8, v: u8) -> u8 {
+        v
+    }
+}
